@@ -212,6 +212,9 @@ def second_call(sent_first: bool, n1: int, n2: int) -> bool:
     resp.send_headers()
     if len(s.out) != 1 or not judge_head(s.out[0], resp, "500 Oops"):
         return False
+    # ... and so is the framing they imply: a Content-Length of the first call must not survive
+    if resp.response_length != (3 if n2 == 2 else None) or resp.chunked != (n2 != 2):
+        return False
     # PEP 3333: the second call REPLACES the stored headers: exactly the second call's headers are on the wire
     return [k for k, _ in resp.headers] == [k for k, _ in second] and s.out[0].startswith(b"HTTP/1.1 500 Oops\r\n")
 
